@@ -872,3 +872,392 @@ def run_contracts(I, key, args, exits):
             except Exception as e:  # a contract that cannot be evaluated is a failed contract, not a pass
                 ctx.rec('C00', f"contract evaluation for {key}", False, f"{type(e).__name__}: {e}")
     return ctx.out
+
+
+# ----------------------------------------------------------------------------- C10 / C11: truncation and rounding
+E_J = UNIX_EPOCH_JULIAN
+
+
+def _k2_of(dform):
+    """(year, month, day) symbols of the K2 decomposition of the date with day count dform, if it was taken"""
+    key = dform.addc(E_J).key()
+    out = []
+    for tag in ('year', 'month', 'day'):
+        s = SYMTAB.cons.get(('op', tag, key))
+        if s is None:
+            return None
+        out.append(Form.sym(s))
+    return out
+
+
+def _ymd_of_result(r: Form):
+    """r = jd(y', m') + k - E  ->  (y', m', k) else None"""
+    hit = _find_sym(r, 'jd')
+    if hit is None or hit[1] != 1:
+        return None
+    jd, _, info = hit
+    rest = r.sub(Form.sym(jd))
+    if rest.terms:
+        return None
+    ykey, mkey = info.data[1]
+    return Form(ykey[0], ykey[1]), Form(mkey[0], mkey[1]), rest.c + E_J
+
+
+def _ok_exits(c):
+    for (st, ret) in c.exits:
+        kind, v = c.split_result(ret)
+        if kind == 'ok':
+            yield st, c.count(v)
+
+
+def _err_exits(c):
+    for (st, ret) in c.exits:
+        kind, v = c.split_result(ret)
+        if kind == 'err':
+            yield st, v
+
+
+def _only_gate_errors(c, prop, name):
+    for st, e in _err_exits(c):
+        c.rec(prop, f"{name}: errors are range errors", e == 'DateOutOfRange', f"error {e}")
+
+
+def _first_of(c, prop, name, ycheck, mcheck):
+    """result is the first day of (y', m') with checks on y' and m' relative to the decomposition of self"""
+    n = 0
+    parts = _k2_of(c.argc(0))
+    for st, r in _ok_exits(c):
+        n += 1
+        ymd = _ymd_of_result(r)
+        if parts is None or ymd is None or ymd[2] != 1:
+            c.rec(prop, f"{name}: result is day 1 of a month", False, f"{r!r}")
+            continue
+        y, m, d = parts
+        y2, m2, _ = ymd
+        ok, why = ycheck(st, y, m, d, y2)
+        c.rec(prop, f"{name}: year of the result", ok, why)
+        ok, why = mcheck(st, y, m, d, m2, y2)
+        c.rec(prop, f"{name}: month of the result", ok, why)
+    c.rec(prop, f"{name}: some path returns Ok", n > 0)
+
+
+def _same(st, a, b):
+    return a == b or st.num.eq0(a.sub(b))
+
+
+QUARTER_RULE = {}
+
+
+def _quarter_rule(month, late):
+    q0 = 3 * ((month - 1) // 3) + 1
+    second = q0 + 1
+    up = month > second or (month == second and late)
+    mm = q0 + 3 if up else q0
+    return 1 if mm == 13 else mm
+
+
+def _tbl_lookup(f: Form, table_suffix, index_expected, st):
+    """f is the value read from table *table_suffix at exactly index_expected"""
+    if f.is_const() and table_suffix.startswith('QUARTER_'):
+        lo, hi = st.num.rng(index_expected)
+        if 0 <= lo <= hi <= 11:
+            wants = set()
+            for i in range(lo, hi + 1):
+                if table_suffix == 'QUARTER_FIRST_MONTH':
+                    wants.add(3 * (i // 3) + 1)
+                else:
+                    wants.add(_quarter_rule(i + 1, table_suffix == 'QUARTER_ROUND_MONTH'))
+            return wants == {f.c}, f"month {f.c} for indices {lo}..{hi}, rule gives {sorted(wants)}"
+    if len(f.terms) == 1 and f.c == 0 and f.terms[0][1] == 1:
+        data = SYMTAB.syms[f.terms[0][0]].data
+        if data and data[0] == 'tbl' and data[1].endswith(table_suffix):
+            return _same(st, data[2], index_expected), f"index {data[2]!r} (expected {index_expected!r}) of {data[1]}"
+    return False, f"{f!r} is not a lookup in {table_suffix}"
+
+
+@contract(r'^<date::Date as Trunc>::trunc_century$')
+def _(c):
+    def yc(st, y, m, d, y2):
+        res = st.num.residue(y2.addc(-1), 100)
+        a, b = st.num.rng2(y.sub(y2))
+        return res == 0 and a >= 0 and b <= 99, f"y' = {y2!r}: (y'-1) mod 100 = {res}, y - y' in [{a}, {b}]"
+    _first_of(c, 'C10', 'trunc_century', yc, lambda st, y, m, d, m2, y2: (m2 == F(1), f"month {m2!r}"))
+    _only_gate_errors(c, 'C10', 'trunc_century')
+
+
+@contract(r'^<date::Date as Trunc>::trunc_year$')
+def _(c):
+    _first_of(c, 'C10', 'trunc_year', lambda st, y, m, d, y2: (_same(st, y, y2), f"{y2!r} vs {y!r}"),
+              lambda st, y, m, d, m2, y2: (m2 == F(1), f"month {m2!r}"))
+
+
+@contract(r'^<date::Date as Trunc>::trunc_month$')
+def _(c):
+    _first_of(c, 'C10', 'trunc_month', lambda st, y, m, d, y2: (_same(st, y, y2), f"{y2!r} vs {y!r}"),
+              lambda st, y, m, d, m2, y2: (_same(st, m, m2), f"{m2!r} vs {m!r}"))
+
+
+@contract(r'^<date::Date as Trunc>::trunc_quarter$')
+def _(c):
+    _first_of(c, 'C10', 'trunc_quarter', lambda st, y, m, d, y2: (_same(st, y, y2), f"{y2!r} vs {y!r}"),
+              lambda st, y, m, d, m2, y2: _tbl_lookup(m2, 'QUARTER_FIRST_MONTH', m.addc(-1), st))
+
+
+def _week_like(c, prop, name, anchor, lo, hi, gate=True):
+    """result == anchor (mod 7) and lo <= d - result <= hi.  anchor(st, parts) -> Form whose residue class the result must share"""
+    d = c.argc(0)
+    parts = _k2_of(d)
+    n = 0
+    for st, r in _ok_exits(c):
+        n += 1
+        a = anchor(st, parts)
+        if a is None:
+            c.rec(prop, f"{name}: anchor of the week grid located", False, '')
+            continue
+        res = st.num.residue(r.sub(a), 7)
+        c.rec(prop, f"{name}: result lies on the week grid", res == 0, f"result {r!r} - anchor {a!r}: residue {res} (mod 7)")
+        x, y = st.num.rng2(d.sub(r))
+        c.rec(prop, f"{name}: moves by {lo}..{hi} days", x >= lo and y <= hi, f"self - result in [{x}, {y}]")
+    c.rec(prop, f"{name}: some path returns Ok", n > 0)
+    for st, e in _err_exits(c):
+        c.rec(prop, f"{name}: errors are range errors", e == 'DateOutOfRange', f"error {e}")
+
+
+def _jan1(st, parts):
+    if parts is None:
+        return None
+    y = parts[0]
+    s = SYMTAB.cons.get(('op', 'jd', (y.key(), F(1).key())))
+    if s is None:
+        return None
+    return Form.sym(s).addc(1 - E_J)
+
+
+def _month_day1(st, parts, dform):
+    """day count of day 1 of the month of self:  d - (day - 1)"""
+    if parts is None:
+        return None
+    return dform.sub(parts[2]).addc(1)
+
+
+@contract(r'^<date::Date as Trunc>::trunc_week$')
+def _(c):
+    _week_like(c, 'C10', 'trunc_week (weeks from 1 January)', _jan1, 0, 6)
+
+
+@contract(r'^<date::Date as Trunc>::trunc_iso_week$')
+def _(c):
+    _week_like(c, 'C10', 'trunc_iso_week (Monday)', lambda st, p: F(4), 0, 6)      # 1970-01-05 (day 4) is a Monday
+
+
+@contract(r'^<date::Date as Trunc>::trunc_sunday_start_week$')
+def _(c):
+    _week_like(c, 'C10', 'trunc_sunday_start_week (Sunday)', lambda st, p: F(3), 0, 6)   # 1970-01-04 (day 3) is a Sunday
+
+
+@contract(r'^<date::Date as Trunc>::trunc_month_start_week$')
+def _(c):
+    d = c.argc(0)
+    _week_like(c, 'C10', 'trunc_month_start_week (days 1, 8, 15, 22, 29)', lambda st, p: _month_day1(st, p, d), 0, 6)
+    parts = _k2_of(d)
+    for st, r in _ok_exits(c):
+        if parts is not None:
+            a, b = st.num.rng2(parts[2].addc(-1).sub(d.sub(r)))
+            c.rec('C10', 'trunc_month_start_week: stays inside the month', a >= 0, f"(day-1) - moved in [{a}, {b}]")
+
+
+@contract(r'^<date::Date as (Trunc|Round)>::(trunc|round)_(day|hour|minute)$')
+def _(c):
+    c.exact('C10' if 'Trunc' in c.key else 'C11', 'Date: day/hour/minute units are the identity', c.argc(0))
+
+
+# ---- timestamps: units below a day
+def _ts_grid(c, prop, name, unit, lo, hi):
+    u = c.argc(0)
+    n = 0
+    for st, r in _ok_exits(c):
+        n += 1
+        res = st.num.residue(r, unit)
+        c.rec(prop, f"{name}: result on the unit grid", res == 0, f"{r!r}: residue {res}")
+        a, b = st.num.rng2(u.sub(r))
+        if a > b:
+            continue        # contradictory state: the path is infeasible
+        c.rec(prop, f"{name}: offset from the input", a >= lo and b <= hi, f"input - result in [{a}, {b}], allowed [{lo}, {hi}]")
+    c.rec(prop, f"{name}: some path returns Ok", n > 0)
+    for st, e in _err_exits(c):
+        c.rec(prop, f"{name}: errors are range errors", e == 'DateOutOfRange', f"error {e}")
+
+
+@contract(r'^<timestamp::Timestamp as Trunc>::trunc_hour$')
+def _(c):
+    _ts_grid(c, 'C10', 'Timestamp::trunc_hour', H_US, 0, H_US - 1)
+
+
+@contract(r'^<timestamp::Timestamp as Trunc>::trunc_minute$')
+def _(c):
+    _ts_grid(c, 'C10', 'Timestamp::trunc_minute', MI_US, 0, MI_US - 1)
+
+
+@contract(r'^<timestamp::Timestamp as Trunc>::trunc_day$')
+def _(c):
+    _ts_grid(c, 'C10', 'Timestamp::trunc_day', D_US, 0, D_US - 1)
+
+
+@contract(r'^<timestamp::Timestamp as Round>::round_hour$')
+def _(c):
+    _ts_grid(c, 'C11', 'Timestamp::round_hour (up from minute 30)', H_US, -(H_US // 2), H_US // 2 - 1)
+
+
+@contract(r'^<timestamp::Timestamp as Round>::round_minute$')
+def _(c):
+    _ts_grid(c, 'C11', 'Timestamp::round_minute (up from second 30)', MI_US, -(MI_US // 2), MI_US // 2 - 1)
+
+
+@contract(r'^<timestamp::Timestamp as Round>::round_day$')
+def _(c):
+    _ts_grid(c, 'C11', 'Timestamp::round_day (up from 12:00)', D_US, -(D_US // 2), D_US // 2 - 1)
+
+
+# ---- rounding of dates
+@contract(r'^<date::Date as Round>::round_century$')
+def _(c):
+    parts = _k2_of(c.argc(0))
+    n = 0
+    for st, r in _ok_exits(c):
+        n += 1
+        ymd = _ymd_of_result(r)
+        if parts is None or ymd is None or ymd[2] != 1 or ymd[1] != F(1):
+            c.rec('C11', 'round_century: result is 1 January', False, f"{r!r}")
+            continue
+        y, y2 = parts[0], ymd[0]
+        res = st.num.residue(y2.addc(-1), 100)
+        c.rec('C11', 'round_century: result year is 1 mod 100', res == 0, f"{y2!r}: residue {res}")
+        a, b = st.num.rng2(y.sub(y2))
+        ry = st.num.residue(y, 100)
+        path = 'year = 0 (mod 100)' if ry == 0 else 'year != 0 (mod 100)'
+        c.rec('C11', f"round_century: year 51 of a century is the first to round up (-50 <= y - y' <= 49) on path[{path}]",
+              a >= -50 and b <= 49, f"y - y' in [{a}, {b}]")
+    c.rec('C11', 'round_century: some path returns Ok', n > 0)
+    for st, e in _err_exits(c):
+        if parts is None:
+            c.rec('C11', 'round_century: error region', False, 'no decomposition')
+            continue
+        a, b = st.num.rng2(parts[0])
+        c.rec('C11', 'round_century: fails only when the next century start is after 9999 (year >= 9951)',
+              e == 'DateOutOfRange' and a >= 9951, f"error {e} returned for years [{a}, {b}]")
+
+
+def _ymd_round(c, name, decide):
+    """decide(st, y, m, d) -> (y', m') expected forms, or 'err' if the rule's boundary is after 9999-12-31, or None if undecided"""
+    parts = _k2_of(c.argc(0))
+    n = 0
+    for (st, ret) in c.exits:
+        kind, v = c.split_result(ret)
+        if parts is None:
+            c.rec('C11', f"{name}: decomposition of self", False, '')
+            continue
+        y, m, d = parts
+        want = decide(st, y, m, d)
+        if want is None:
+            c.rec('C11', f"{name}: path decides the rounding direction", False, f"month in {list(st.num.rng(m))}, day in {list(st.num.rng(d))}")
+            continue
+        if kind == 'err':
+            c.rec('C11', f"{name}: fails only when the chosen boundary is after the maximum date", want == 'err' and v == 'DateOutOfRange',
+                  f"error {v}; rule gives {want if want == 'err' else [repr(x) for x in want]}")
+            continue
+        n += 1
+        r = c.count(v)
+        ymd = _ymd_of_result(r)
+        if ymd is None or ymd[2] != 1 or want == 'err':
+            c.rec('C11', f"{name}: result is day 1 of the chosen month", False, f"{r!r} (rule: {want})")
+            continue
+        ok_y = _same(st, ymd[0], want[0])
+        if isinstance(want[1], tuple):
+            ok_m, why = _tbl_lookup(ymd[1], want[1][0], want[1][1], st)
+        else:
+            ok_m, why = _same(st, ymd[1], want[1]), f"{ymd[1]!r} vs {want[1]!r}"
+        c.rec('C11', f"{name}: year of the result", ok_y, f"{ymd[0]!r} vs {want[0]!r}")
+        c.rec('C11', f"{name}: month of the result", ok_m, why)
+    c.rec('C11', f"{name}: some path returns Ok", n > 0)
+
+
+def _dec(c, st, p):
+    return c.I.decide(st, p, deep=True)
+
+
+@contract(r'^<date::Date as Round>::round_year$')
+def _(c):
+    def rule(st, y, m, d):
+        up = _dec(c, st, ('cmp', 'ge', m, F(7)))
+        if up is None:
+            return None
+        if not up:
+            return (y, F(1))
+        last = _dec(c, st, ('cmp', 'ge', y, F(9999)))
+        if last is None:
+            return None
+        return 'err' if last else (y.addc(1), F(1))
+    _ymd_round(c, 'round_year (up from 1 July)', rule)
+
+
+@contract(r'^<date::Date as Round>::round_month$')
+def _(c):
+    def rule(st, y, m, d):
+        up = _dec(c, st, ('cmp', 'ge', d, F(16)))
+        if up is None:
+            return None
+        if not up:
+            return (y, m)
+        dec = _dec(c, st, ('cmp', 'eq', m, F(12)))
+        if dec is None:
+            return None
+        if not dec:
+            return (y, m.addc(1))
+        last = _dec(c, st, ('cmp', 'ge', y, F(9999)))
+        if last is None:
+            return None
+        return 'err' if last else (y.addc(1), F(1))
+    _ymd_round(c, 'round_month (up from the 16th)', rule)
+
+
+@contract(r'^<date::Date as Round>::round_quarter$')
+def _(c):
+    def rule(st, y, m, d):
+        late = _dec(c, st, ('cmp', 'ge', d, F(16)))
+        if late is None:
+            return None
+        # the year carries when the chosen quarter start is next January: month 12 always, month 11 from the 16th
+        carry = _dec(c, st, ('cmp', 'ge', m, F(11))) if late else _dec(c, st, ('cmp', 'eq', m, F(12)))
+        if carry is None:
+            return None
+        tbl = 'QUARTER_ROUND_MONTH' if late else 'QUARTER_TRUNC_MONTH'
+        if carry:
+            last = _dec(c, st, ('cmp', 'ge', y, F(9999)))
+            if last is None:
+                return None
+            if last:
+                return 'err'
+            return (y.addc(1), (tbl, m.addc(-1)))
+        return (y, (tbl, m.addc(-1)))
+    _ymd_round(c, "round_quarter (up from the 16th of the quarter's second month)", rule)
+
+
+@contract(r'^<date::Date as Round>::round_week$')
+def _(c):
+    _week_like(c, 'C11', 'round_week (fifth day rounds up)', _jan1, -3, 3)
+
+
+@contract(r'^<date::Date as Round>::round_iso_week$')
+def _(c):
+    _week_like(c, 'C11', 'round_iso_week (Friday rounds up)', lambda st, p: F(4), -3, 3)
+
+
+@contract(r'^<date::Date as Round>::round_sunday_start_week$')
+def _(c):
+    _week_like(c, 'C11', 'round_sunday_start_week (Thursday rounds up)', lambda st, p: F(3), -3, 3)
+
+
+@contract(r'^<date::Date as Round>::round_month_start_week$')
+def _(c):
+    d = c.argc(0)
+    _week_like(c, 'C11', 'round_month_start_week (fifth day rounds up)', lambda st, p: _month_day1(st, p, d), -3, 3)
